@@ -61,11 +61,13 @@ def gen(rnd, idx=0, nfiles=None, ntypes=None, ncmds=None, nevents=None, validato
             items.append(Item("type", a_, rg.struct_src(a_, [("lower", "u32")])))
             items.append(Item("type", b_, rg.struct_src(b_, [("upper", "String")])))
             items.append(Item("command", "uses_%s" % a_.lower(), rg.command_src("uses_%s_%d" % (a_.lower(), len(items)), [("a", a_)], b_)))
-    if rnd.random() < 0.3:
-        # one command implemented once per platform: two annotated functions of one name (and one signature)
+    twins = []
+    if rnd.random() < 0.3 or idx % 3 == 0:
+        # one command implemented once per platform: two annotated functions of one name (and one signature). In every third project
+        # the two start out next to each other in one file (how they are usually written); the transformations move them apart
         nm = "platform_cmd_%d" % idx
         for gate in ('#[cfg(target_os = "windows")]', '#[cfg(not(target_os = "windows"))]'):
-            items.append(Item("command", nm, rg.command_src(nm, [("path", "String"), ("flags", "u32")], "Result<String, String>", pre_attrs=[gate])))
+            (twins if idx % 3 == 0 else items).append(Item("command", nm, rg.command_src(nm, [("path", "String"), ("flags", "u32")], "Result<String, String>", pre_attrs=[gate])))
     if rnd.random() < 0.35:
         # serde newtypes / tuple structs among the used types (the tool has no declaration form for them — a recorded finding of
         # C07 / C02 — but whatever it does about them, it does the same on every run and to nothing else)
@@ -110,6 +112,8 @@ def gen(rnd, idx=0, nfiles=None, ntypes=None, ncmds=None, nevents=None, validato
         files = {p: [] for p in paths}
     for it in items:
         files[rnd.choice(paths)].append(it)
+    if twins:
+        files[paths[idx % len(paths)]].extend(twins)
     if inline_only:
         files["models_inline.rs"] = inline_only
     return files
